@@ -29,9 +29,10 @@ void final_report() {}
 // ---------------------------------------------------------------- per-case id registry
 static std::vector<double> W;            // weight of every id issued in this case
 static std::vector<uint32_t> owner_gen;  // per id: generation stamp of the model it currently belongs to (see Model::stamp)
-static std::vector<uint8_t> seen_flag;   // scratch for duplicate detection
+static std::vector<uint8_t> seen_flag;   // scratch for duplicate detection (count of occurrences in the draw at hand)
+static std::vector<uint8_t> mult_allowed; // per id: how often it occurs in the current model's input (2 after a self-merge)
 
-static uint64_t new_id(double w) { W.push_back(w); owner_gen.push_back(0); seen_flag.push_back(0); return W.size() - 1; }
+static uint64_t new_id(double w) { W.push_back(w); owner_gen.push_back(0); seen_flag.push_back(0); mult_allowed.push_back(0); return W.size() - 1; }
 
 static bool close_rel(long double a, long double b, double rel) {
   const long double d = a > b ? a - b : b - a;
@@ -73,8 +74,8 @@ static void check_draw(const std::vector<uint64_t>& got, const Model& m, double 
   VF_CHECK(sz == fl || sz == ce, fam + "|" + how + "|size-not-floor-or-ceil-of-c", ctx() + " size=" + std::to_string(got.size()) + " c=" + str(c));
   for (uint64_t id : got) {
     if (id >= W.size() || owner_gen[id] != g_stamp) { checked(); fail(fam + "|" + how + "|item-not-from-input", ctx() + " id=" + std::to_string(id)); continue; }
-    if (seen_flag[id]) { checked(); fail(fam + "|" + how + "|duplicate-item", ctx() + " id=" + std::to_string(id)); continue; }
-    seen_flag[id] = 1;
+    if (seen_flag[id] >= mult_allowed[id]) { checked(); fail(fam + "|" + how + "|duplicate-item", ctx() + " id=" + std::to_string(id) + " multiplicity-in-input=" + std::to_string(mult_allowed[id])); continue; }
+    ++seen_flag[id];
   }
   for (uint64_t id : got) if (id < W.size()) seen_flag[id] = 0;
   if (m.all_equal && m.n <= m.k && m.n > 0) {
@@ -98,7 +99,7 @@ static void observe(const EB& s, const Model& m, const char* after, int draws) {
   VF_CHECK(std::fabs(c - want) <= 1e-9 * want /* false for NaN */, fam + "|c-not-min-k-cumwt-over-wmax", ctx() + " c=" + str(c) + " want=" + str(want));
   // stamp the inputs of this model so that provenance is a flag test
   ++g_stamp;
-  for (uint64_t id : m.ids) owner_gen[id] = g_stamp;
+  for (uint64_t id : m.ids) { if (owner_gen[id] != g_stamp) { owner_gen[id] = g_stamp; mult_allowed[id] = 1; } else if (mult_allowed[id] < 255) ++mult_allowed[id]; }
   for (int d = 0; d < draws; ++d) {
     try {
       auto res = s.get_result();
@@ -260,13 +261,35 @@ static bool assignment_probe(Rng& r, Live& L) {
   return true;
 }
 
+// s.merge(s) through a reference: the model is the stream seen twice (n and cumulative weight double, maximum
+// weight and k unchanged, every input id now has one more occurrence).  Returns false if the library threw.
+static bool self_merge(Live& L, const char* when) {
+  const bool saturated = L.m.n > 0 && static_cast<double>(L.m.cum / L.m.wmax) >= static_cast<double>(L.m.k);
+  const bool eq_fits = L.m.n > 0 && L.m.all_equal && 2 * L.m.n <= L.m.k;
+  const std::string ctx0 = std::string(when) + " k=" + std::to_string(L.m.k) + " n=" + std::to_string(L.m.n) + " c=" + str(L.sk->get_c());
+  try { const EB& ref = *L.sk; L.sk->merge(ref); }
+  catch (const std::exception& e) { checked(); fail(std::string(g_mfam) + "|self-merge|throws", ctx0 + " what=" + e.what()); return false; }
+  const Model twin = L.m;
+  L.m.absorb(twin);
+  VF_CHECK(L.sk->get_n() == L.m.n, std::string(g_mfam) + "|self-merge|n-not-doubled", ctx0 + " got=" + std::to_string(L.sk->get_n()));
+  VF_CHECK(close_rel(L.sk->get_cumulative_weight(), L.m.cum, 1e-12), std::string(g_mfam) + "|self-merge|cumulative-weight-not-doubled", ctx0 + " got=" + str(L.sk->get_cumulative_weight()));
+  VF_CHECK(L.sk->get_k() == L.m.k, std::string(g_mfam) + "|self-merge|k-changed", ctx0 + " got=" + std::to_string(L.sk->get_k()));
+  observe(*L.sk, L.m, "self-merge", 3);
+  if (twin.n == 0) count("self_merge_empty"); else if (saturated) count("self_merge_saturated"); else count("self_merge_c_below_k");
+  if (eq_fits) count("self_merge_equal_weights_every_item_kept_twice");
+  return true;
+}
+
 // feed `cnt` updates; returns false when the library threw on a valid weight
 static bool feed(Rng& r, Live& L, WGen& g, uint64_t cnt, uint64_t& pos, bool hostile, uint64_t obs_every) {
   const double inf = std::numeric_limits<double>::infinity();
   for (uint64_t j = 0; j < cnt; ++j, ++pos) {
     if (hostile && r.chance(0.02)) {
-      const uint64_t op = r.below(12);
-      if (op >= 10) {
+      const uint64_t op = r.below(14);
+      if (op >= 12) {
+        // (bounded: every self-merge doubles n and the id list)
+        if (L.m.n <= 20000) { if (!self_merge(L, "mid-stream")) return false; count("updates_after_self_merge"); }
+      } else if (op >= 10) {
         if (!assignment_probe(r, L)) return false;
       } else if (op < 3) {
         const uint64_t id = new_id(0.0);
@@ -379,6 +402,20 @@ static void explore_body(Rng& r, bool deep) {
     }
     if (L.m.k == 1) count("k1_sketches");
     pos += n;
+  }
+  describe(d);
+  // self-merge of a freshly built sketch (both regimes), usually followed by more updates
+  if (!deep) for (Live& L : live) {
+    if (!r.chance(0.15)) continue;
+    describe(d + " self-merge of (k=" + std::to_string(L.m.k) + ",n=" + std::to_string(L.m.n) + ")");
+    if (!self_merge(L, "after build")) return;
+    if (r.chance(0.3) && L.m.n <= 5000) { if (!self_merge(L, "second self-merge")) return; count("self_merge_twice"); }
+    if (r.chance(0.7)) {
+      const uint64_t extra = 1 + r.below(2ull * L.m.k + 10);
+      WGen g; g.init(r, static_cast<int>(r.below(K_NKINDS)), extra);
+      if (!feed(r, L, g, extra, pos, hostile, extra <= 60 ? 1 : 7)) return;
+      count("updates_after_self_merge");
+    }
   }
   describe(d);
   // merges: random pairs, both directions, lvalue / rvalue, chains; then keep updating the target
@@ -544,7 +581,7 @@ static void stat_cell(uint64_t idx, Rng& r) {
 }
 
 void run_case(uint64_t idx, Rng& r) {
-  W.clear(); owner_gen.clear(); seen_flag.clear(); g_stamp = 0;
+  W.clear(); owner_gen.clear(); seen_flag.clear(); mult_allowed.clear(); g_stamp = 0;
   const uint64_t nstat = G().thorough() ? NSTAT_THOROUGH : NSTAT_QUICK;
   g_fam = "sketch"; g_mfam = "merge";
   if (idx < nstat) { stat_cell(idx, r); return; }
